@@ -66,7 +66,7 @@ def main():
         runs = []
         try:
             patched_demo = sh([PY, demo], env=env, timeout=1200).returncode if os.path.exists(demo) else None
-            for seed in seeds:
+            for seed, prop in [(s_, p_) for s_ in seeds for p_ in meta.get('check_props', [prop])]:
                 e = dict(os.environ, VERIF_SEED=seed, VSIM_EVIDENCE_DIR=os.path.join(scratch, 'evidence'), VSIM_REPLAY_DIR=os.path.join(scratch, 'replays'), PYTHONDONTWRITEBYTECODE='1', **srcenv)
                 if count:
                     e['VSIM_COUNT'] = count
@@ -74,14 +74,15 @@ def main():
                 p = sh([PY, os.path.join(VERIF, 'bin', 'vsim'), 'check', prop, '--tier', 'quick'], env=e)
                 lines = p.stdout.splitlines()
                 classes = [l.strip()[:300] for l in lines if l.strip().startswith('class=')]
-                runs.append(dict(seed=int(seed), exit=p.returncode, violation_lines=sum(l.startswith('VIOLATION') for l in lines), classes=classes[:5], summary=lines[-1][:300] if lines else '', wall_s=round(time.time() - t0, 1)))
+                runs.append(dict(seed=int(seed), check=prop, exit=p.returncode, violation_lines=sum(l.startswith('VIOLATION') for l in lines), classes=classes[:5], summary=lines[-1][:300] if lines else '', wall_s=round(time.time() - t0, 1)))
         finally:
             sh(['git', '-C', '/repo', 'checkout', '--', '.'])
             shutil.rmtree(scratch, ignore_errors=True)
             if base:
                 shutil.rmtree(broot, ignore_errors=True)
         assert repo_clean()
-        caught = all(r['exit'] == 1 and r['violation_lines'] for r in runs)
+        prop = sid.split('-')[0]
+        caught = all(any(r['exit'] == 1 and r['violation_lines'] for r in runs if r['seed'] == int(s_)) for s_ in seeds)
         some = any(r['exit'] == 1 and r['violation_lines'] for r in runs)
         meta['checked'] = dict(cmd=(f'(scratch export of /repo at {base} under /dev/shm, patch applied there, VSIM_NUTILS_SRC pointing at it) ' if base else '') + f'git -C /repo apply {patch}; {PY} /verif/bin/vsim check {prop} --tier quick (VERIF_SEED in {seeds}' + (f', VSIM_COUNT={count}' if count else '') + '); git -C /repo checkout -- .',
                                demo_exit_on_clean_tree=clean_demo, demo_exit_on_patched_tree=patched_demo, runs=runs,
